@@ -82,3 +82,82 @@ def result_variant_on_path(body, p):
             else:
                 variant = '?call:' + callee_id(t['callee'])
     return variant
+
+
+class PathFacts:
+    """What one acyclic path decides and does: switch decisions, calls, stores, the returned value."""
+
+    def __init__(self, body, path):
+        self.body = body
+        self.path = [b for b in path if b != 'loop']
+        self.decisions = []     # (discriminant tree, [values] or 'otherwise', block)
+        self.calls = []         # (block, call tree, terminator)
+        self.ret = None         # tree of the last whole assignment to _0
+        self.stores = []        # (place json, rvalue tree, line)
+        body_ = body
+        # environment: for locals assigned in several places, the last whole assignment on this path
+        env = {}
+        onpath = set(self.path)
+        for l, ds in body_.defs().items():
+            if len(ds) > 1:
+                last = None
+                for (bi, si, kind, node) in ds:
+                    if bi in onpath and kind in ('assign', 'call'):
+                        pos = (self.path.index(bi), si if si >= 0 else 1 << 30)
+                        if last is None or pos > last[0]:
+                            last = (pos, (bi, si, kind, node))
+                if last is not None:
+                    env[l] = last[1]
+        self.env = env
+        for i, b in enumerate(self.path):
+            blk = body_.blocks[b]
+            for s in blk['stmts']:
+                if s['s'] == 'assign':
+                    if s['pl']['l'] == 0 and not s['pl']['p']:
+                        self.ret = body_.tree_of_rvalue(s['rv'], 0, env)
+                    elif s['pl']['p']:
+                        self.stores.append((s['pl'], body_.tree_of_rvalue(s['rv'], 0, env), s['sp']['l']))
+            t = blk['term']
+            if t['t'] == 'call':
+                tr = body_.tree_of_call(t, 0, b, env)
+                self.calls.append((b, tr, t))
+                if t['dest']['l'] == 0 and not t['dest']['p']:
+                    self.ret = tr
+            elif t['t'] == 'switch' and i + 1 < len(self.path):
+                nxt = self.path[i + 1]
+                vals = [v for v, bb in t['targets'] if bb == nxt]
+                self.decisions.append((body_.tree_of_operand(t['discr'], 0, env), vals if vals else 'otherwise', b,
+                                       [v for v, _ in t['targets']]))
+        last = self.path[-1]
+        self.returns = body_.blocks[last]['term']['t'] == 'return'
+
+    def variant_decisions(self):
+        """[(scrutinee tree, variant index)] for switches on discriminant(..)."""
+        out = []
+        for d, vals, b, allv in self.decisions:
+            if d[0] == 'discr':
+                out.append((d[1], vals, allv))
+        return out
+
+    def str_decisions(self):
+        """[(other operand tree, literal, truth)] for switches on str == literal tests."""
+        out = []
+        for d, vals, b, allv in self.decisions:
+            if d[0] == 'call' and 'PartialEq' in d[1] and d[1].endswith('::eq') and len(d[2]) == 2:
+                lit = other = None
+                for a in d[2]:
+                    x = a
+                    while x[0] in ('ref', 'deref'):
+                        x = x[1]
+                    if x[0] == 'str':
+                        lit = x[1]
+                    else:
+                        other = a
+                if lit is not None and other is not None:
+                    truth = not (vals != 'otherwise' and 0 in vals)
+                    out.append((other, lit, truth))
+        return out
+
+
+def all_path_facts(body, limit=20000):
+    return [PathFacts(body, p) for p in enumerate_paths(body, limit)]
